@@ -1,11 +1,32 @@
 //! sl-verif-harness: runs the real sl-crypto implementation on generated cases for the
 //! correspondence checks of /verif (DESIGN.md, tie T2).
 //!
-//!   harness <property> <mode> [key=value ...]
+//!   harness <property> [key=value ...]
 //!
 //! Each property module writes its cases/results to the directory given as `out=`.
-mod util;
+#![allow(dead_code, unused_imports)]
+pub mod util;
+pub mod oracle;
+mod c01;
+mod c02;
+mod c03;
+mod c04;
+mod c05;
+mod c06;
+mod c07;
+mod c08;
+mod c09;
+mod c10;
+mod c11;
+mod c12;
+mod c13;
+mod c14;
+mod c15;
+mod c16;
+mod c17;
+mod c18;
 mod c19;
+mod c20;
 
 fn main() {
     let args: Vec<String> = std::env::args().collect();
@@ -15,7 +36,26 @@ fn main() {
     }
     let kv = util::Args::parse(&args[2..]);
     let rc = match args[1].as_str() {
+        "c01" => c01::run(&kv),
+        "c02" => c02::run(&kv),
+        "c03" => c03::run(&kv),
+        "c04" => c04::run(&kv),
+        "c05" => c05::run(&kv),
+        "c06" => c06::run(&kv),
+        "c07" => c07::run(&kv),
+        "c08" => c08::run(&kv),
+        "c09" => c09::run(&kv),
+        "c10" => c10::run(&kv),
+        "c11" => c11::run(&kv),
+        "c12" => c12::run(&kv),
+        "c13" => c13::run(&kv),
+        "c14" => c14::run(&kv),
+        "c15" => c15::run(&kv),
+        "c16" => c16::run(&kv),
+        "c17" => c17::run(&kv),
+        "c18" => c18::run(&kv),
         "c19" => c19::run(&kv),
+        "c20" => c20::run(&kv),
         other => {
             eprintln!("unknown property {other}");
             2
